@@ -325,6 +325,20 @@ pub fn negation(rng: &mut Rng, spec: &TreeSpec) -> String {
     "**/a/**".to_string()
 }
 
+/// A combinator with the empty pattern at a random position among one to three other members;
+/// every second time the others are all always-exhaustive.
+pub fn any_with_empty_member(rng: &mut Rng, spec: &TreeSpec) -> Vec<String> {
+    const EXHAUSTIVE: &[&str] = &["**/a/**", "a/**", "**/x/**", "**/.*/**", "**/{.git,target}/**", "**/b/**", "src/**", "{a/**,b/**}"];
+    let n = rng.range(1, 3);
+    let all_exhaustive = rng.chance(1, 2);
+    let mut members: Vec<String> = (0..n)
+        .map(|_| if all_exhaustive { rng.pick_str(EXHAUSTIVE).to_string() } else { negation(rng, spec) })
+        .collect();
+    let at = rng.below(members.len() + 1);
+    members.insert(at, String::new());
+    members
+}
+
 pub fn layer(rng: &mut Rng, spec: &TreeSpec) -> LayerSpec {
     match rng.below(10) {
         0..=2 => LayerSpec::NotText(negation(rng, spec)),
@@ -341,6 +355,9 @@ pub fn layer(rng: &mut Rng, spec: &TreeSpec) -> LayerSpec {
                 if pair.iter().all(|p| Glob::new(p).is_ok()) {
                     return if rng.chance(1, 2) { LayerSpec::NotAny(pair) } else { LayerSpec::NotAny(vec![pair[1].clone(), pair[0].clone()]) };
                 }
+            }
+            if rng.chance(1, 4) {
+                return LayerSpec::NotAny(any_with_empty_member(rng, spec));
             }
             let n = rng.range(1, 3);
             LayerSpec::NotAny((0..n).map(|_| negation(rng, spec)).collect())
